@@ -226,3 +226,66 @@ for r in range(rounds):
 stop = True
 print(json.dumps({"rounds": rounds, "distinct_trackers": len(set(pids)), "signals_sent": len(sent), "died_of_signals": dead}))
 '''
+
+
+# Several threads of one process perform tracked operations together while no tracker is up (first start-up) and after the
+# tracker was SIGKILLed: exactly one tracker must be started each time, no operation may fail, and nothing registered by this
+# (living) process may be destroyed.  Launches are counted by wrapping the spawn helper the tracker module calls.
+THREADS = r'''
+import json, os, signal, sys, tempfile, threading, time, warnings
+warnings.simplefilter("ignore")
+from loky.backend import resource_tracker as rt
+rounds, nthreads = int(sys.argv[1]), int(sys.argv[2])
+tr = rt._resource_tracker
+launched = []
+_orig = rt.spawnv_passfds
+def counting(*a, **k):
+    pid = _orig(*a, **k)
+    launched.append(pid)
+    return pid
+rt.spawnv_passfds = counting
+def alive(pid):
+    try:
+        return open(f"/proc/{pid}/stat").read().rsplit(")", 1)[1].split()[0] != "Z"
+    except OSError:
+        return False
+d = tempfile.mkdtemp(prefix="lokyv_thr_")
+report = []
+for r in range(rounds):
+    before = len(launched)
+    bar = threading.Barrier(nthreads)
+    errors, files = [], []
+    def work(i):
+        path = os.path.join(d, f"r{r}_t{i}")
+        open(path, "w").close()
+        files.append(path)
+        bar.wait()
+        try:
+            rt.register(path, "file")
+        except BaseException as e:
+            errors.append(repr(e)[:120])
+    ths = [threading.Thread(target=work, args=(i,)) for i in range(nthreads)]
+    [t.start() for t in ths]; [t.join(30) for t in ths]
+    time.sleep(0.4)
+    new = launched[before:]
+    report.append({"round": r, "launched": len(new), "errors": errors, "missing": [os.path.basename(f) for f in files if not os.path.exists(f)],
+                   "alive": sum(1 for p in set(launched) if alive(p)), "current_alive": tr._pid is not None and alive(tr._pid)})
+    if r + 1 < rounds:
+        pid = tr._pid
+        os.kill(pid, signal.SIGKILL)
+        t0 = time.time()
+        while alive(pid) and time.time() - t0 < 5:
+            time.sleep(0.005)
+for f in os.listdir(d):
+    try:
+        if os.path.join(d, f) in files and report[-1]["launched"] == 1:      # the others were known to trackers that are gone
+            rt.unregister(os.path.join(d, f), "file")
+    except BaseException:
+        pass
+    try:
+        os.unlink(os.path.join(d, f))
+    except OSError:
+        pass
+os.rmdir(d) if not os.listdir(d) else None
+print(json.dumps({"rounds": report}))
+'''
